@@ -217,7 +217,7 @@ def draw_client_ops(st, n_ops, hot):
             ops.append({"op": "pgm", "d": d, "n": n, "pure": pure, "weights": w, "uniform_default": bool(st.draw(4) == 0), "seed": SEED_POOL[st.draw(len(SEED_POOL))], "bad": bool(st.draw(2)), "form": st.draw(3), "probs_array": bool(st.draw(3) == 0), "tiny_prior": tiny})
         else:
             d = st.int_range(1, 4)
-            ops.append({"op": "measure", "d": d, "mkind": st.choice(["povm_sqrt", "projective", "single", "incomplete", "isometric"]), "outs": st.int_range(2, 4), "update": bool(st.draw(2)), "as_tuple": bool(st.draw(3) == 0), "seed": SEED_POOL[st.draw(len(SEED_POOL))], "state_form": st.weighted([("complex", 3), ("real", 2), ("int_basis", 1), ("real_pure", 1)])})
+            ops.append({"op": "measure", "d": d, "mkind": st.choice(["povm_sqrt", "projective", "single", "incomplete", "isometric", "basis_int"]), "outs": st.int_range(2, 4), "update": bool(st.draw(2)), "as_tuple": bool(st.draw(3) == 0), "seed": SEED_POOL[st.draw(len(SEED_POOL))], "state_form": st.weighted([("complex", 3), ("real", 2), ("int_basis", 1), ("real_pure", 1)])})
     return ops
 
 
@@ -512,6 +512,8 @@ def expand_gen_calls(op):
         calls = [("random_density_matrix", {"dim": op["d"], "is_real": op.get("state_form", "complex") != "complex", "k_param": None, "distance_metric": "haar"}, op["seed"], "int")]
         if op["mkind"] in ("povm_sqrt", "incomplete", "isometric"):
             calls.append(("random_povm", {"dim": op["d"], "num_inputs": 1, "num_outputs": op["outs"]}, op["seed"], "int"))
+        elif op["mkind"] == "basis_int":
+            pass  # computational-basis projectors written down by hand: integer arrays, no generator call
         else:
             calls.append(("random_unitary", {"dim": op["d"], "is_real": False}, op["seed"], "int"))
         return calls
@@ -575,6 +577,12 @@ def exec_op(R, pgm_f, pbm_f, measure_f, op, live=None):
                 # Kraus operators into a larger output space: K_a = V sqrt(M_a), V an isometry d -> d + 1
                 v_iso = np.eye(d + 1, d)
                 kraus = [v_iso @ kk for kk in kraus]
+        elif op["mkind"] == "basis_int":
+            kraus = []
+            for j in range(d):
+                pj = np.zeros((d, d), dtype=int)
+                pj[(j + op["seed"]) % d, (j + op["seed"]) % d] = 1
+                kraus.append(pj)
         elif op["mkind"] == "projective":
             u = objs[1][1]
             kraus = [np.outer(u[:, j], u[:, j].conj()) for j in range(d)]
